@@ -54,6 +54,8 @@ pub fn samples(ctx: &mut Ctx) -> Vec<(&'static str, Vec<u8>)> {
     out.push(("Vec<G2Projective>", wire::arr((0..2).map(|_| wire::enc_g2(&book, &rand_scalar(&mut ctx.prng))).collect())));
     out.push(("Vec<Scalar>", wire::arr((0..3).map(|_| wire::enc_s(&rand_scalar(&mut ctx.prng))).collect())));
     out.push(("Vec<Scalar>", wire::arr(vec![])));
+    // a long vector (more elements than any up-front allocation cap)
+    out.push(("Vec<Scalar>", wire::arr((0..4100u64).map(|i| wire::enc_s(&Scalar::from(i + 2))).collect())));
     out.push(("[Scalar;5]", wire::arr((0..5).map(|_| wire::enc_s(&edge_scalar(&mut ctx.prng))).collect())));
     out.push(("Box<[G1Projective;3]>", wire::arr((0..3).map(|_| wire::enc_g1(&book, &rand_scalar(&mut ctx.prng))).collect())));
     // a session: every protocol message and customer state
@@ -250,6 +252,7 @@ pub fn run(ctx: &mut Ctx) {
             Outc::Ok { consumed, reencodes } if *consumed == bytes.len() && *reencodes => {}
             _ => ctx.violation(&format!("honest {} does not round-trip: {:?}", name, real), json!({"class": "honest-roundtrip", "type": name, "bytes": hex::encode(bytes)})),
         }
+        if bytes.len() > 20000 { continue; } // the long vector: honest round trip only
         // 2. each atom replaced by each invalid / boundary encoding
         let stride = if ctx.thorough() || atoms.len() <= 40 { 1 } else { atoms.len() / 40 + 1 };
         for (ai, (o, l, k)) in atoms.iter().enumerate() {
@@ -291,6 +294,14 @@ pub fn run(ctx: &mut Ctx) {
                 'i' => { alts.push(("i64-min", i64::MIN.to_le_bytes().to_vec(), None)); }
                 'b' => { alts.push(("u8-255", vec![255], None)); alts.push(("u8-other", vec![bytes[*o].wrapping_add(1)], None)); }
                 'r' => { alts.push(("raw-random", (0..*l).map(|_| ctx.prng.gen()).collect(), None)); }
+                'L' => {
+                    // a length prefix other than the number of elements that follow is not canonical
+                    let n = u64::from_le_bytes({ let mut a = [0u8; 8]; a.copy_from_slice(&bytes[*o..*o + 8]); a });
+                    alts.push(("length-prefix-n+1", (n + 1).to_le_bytes().to_vec(), None));
+                    alts.push(("length-prefix-2^63", (1u64 << 63).to_le_bytes().to_vec(), None));
+                    alts.push(("length-prefix-2^64-1", u64::MAX.to_le_bytes().to_vec(), None));
+                    if n > 0 { alts.push(("length-prefix-n-1", (n - 1).to_le_bytes().to_vec(), None)); }
+                }
                 _ => {}
             }
             for (what, rep, must_fail) in alts {
@@ -398,7 +409,13 @@ pub fn run_c16(ctx: &mut Ctx) {
 /// decode in a child process (the pinned `Vec` visitor may abort the process on a huge length prefix)
 fn compare_isolated(ctx: &mut Ctx, e: &TyEntry, bytes: &[u8], atoms: &[(usize, usize, char)], what: &str) -> (Outc, usize, String) {
     let exe = std::env::current_exe().expect("current exe");
-    let out = std::process::Command::new(exe).arg("--decode-one").arg(e.name).arg(hex::encode(bytes)).output();
+    let out = (|| -> std::io::Result<std::process::Output> {
+        use std::io::Write;
+        let mut ch = std::process::Command::new(exe).arg("--decode-one").arg(e.name).arg("-")
+            .stdin(std::process::Stdio::piped()).stdout(std::process::Stdio::piped()).stderr(std::process::Stdio::null()).spawn()?;
+        ch.stdin.take().unwrap().write_all(hex::encode(bytes).as_bytes())?;
+        ch.wait_with_output()
+    })();
     let (real, maxalloc) = match out {
         Ok(o) if o.status.success() => {
             let s = String::from_utf8_lossy(&o.stdout).to_string();
@@ -427,7 +444,13 @@ fn compare_isolated(ctx: &mut Ctx, e: &TyEntry, bytes: &[u8], atoms: &[(usize, u
 pub fn decode_one(name: &str, hexbytes: &str) {
     let reg = registry();
     let e = reg.iter().find(|e| e.name == name).expect("type");
-    let bytes = hex::decode(hexbytes).expect("hex");
+    let mut input = hexbytes.to_string();
+    if hexbytes == "-" {
+        use std::io::Read;
+        input.clear();
+        std::io::stdin().read_to_string(&mut input).expect("stdin");
+    }
+    let bytes = hex::decode(input.trim()).expect("hex");
     let (o, m) = (e.dec)(&bytes);
     match o {
         Outc::Ok { consumed, .. } => println!("ok {} {}", m, consumed),
